@@ -261,6 +261,23 @@ func genProduce(prop string, seed uint64) *Plan {
 		recSize = func() int64 { return g.pick(10, 40, 100, 200, 300, 420) }
 		nops = int(g.rng(15, 60))
 		faultsN = int(g.rng(0, 3))
+		if g.pct(35) {
+			// a rolling upgrade: brokers negotiate different produce
+			// versions (zstd needs v7), batches are re-sent to another
+			// broker after leader moves
+			k["mixed_versions"] = 1
+			k["old_produce_ver"] = g.pick(3, 5, 6, 6, 8)
+			k["old_produce_ver2"] = g.pick(3, 4, 7)
+			if nb < 2 {
+				nb = g.rng(2, 5)
+				k["nbroker"] = nb
+			}
+			k["codec"] = g.pick(4, 4, 4, 1, 3)
+			movesN = int(g.rng(2, 8))
+			if g.pct(50) {
+				g.fault(Fault{Kind: "err_noproc", Broker: -1, Key: 0, Nth: int(g.rng(1, 6)), Code: int16(g.pick(ErrNotLeader, ErrRequestTimedOut))})
+			}
+		}
 	case "C29":
 		// the run crosses the sequence wrap within its first batches
 		k["nparts"] = g.rng(2, 4)
